@@ -20,7 +20,7 @@
 From Coq Require Import String List ZArith NArith Bool.
 Import ListNotations.
 From Selfies Require Import Base Generated Atoms Grammar Decoder PySet Matching Smiles Kekulize Encoder
-  IndexSpec IndexCode Reader RoundTrip EncoderFacts PureFacts ParserTotal EncFuel EncIndex EncKey EncAttrErr EncUniq EncOrders EncKek EncMatch EncMatchSafe EncOutcomes.
+  IndexSpec IndexCode Reader RoundTrip EncoderFacts PureFacts ParserTotal EncFuel EncIndex EncKey EncAttrErr EncUniq EncOrders EncKek EncMatch EncMatchSafe EncCount EncGreedy EncOutcomes.
 Local Open Scope string_scope.
 
 Theorem C09_parse_error_is_encoder_error_partial : forall capf s strict attribute,
@@ -124,14 +124,24 @@ Theorem C09_last_stage_outcomes_partial : forall T smiles strict attribute m0 m1
   encoder T smiles strict attribute = Err e -> e = EncoderError.
 Proof. exact encoder_after_kekulize_outcomes. Qed.
 
+(* the greedy phase too (proofs/EncGreedy.v): on the pruned graph of a parsed molecule - adjacency entries are labels,
+   no atom is its own neighbour, and every pair is listed on both sides equally often - the bookkeeping of free_degrees
+   is exactly the number of free neighbours, so `next(...)` never raises StopIteration; with the augmenting phase:
+   whatever find_perfect_matching does there, it raises no Python exception; the only failure left in the model is its
+   own fuel *)
+Theorem C09_matching_raises_nothing_partial : forall smiles attribute m0 g e,
+  smiles_to_mol smiles attribute = Ok m0 -> pruned_ds m0 = Ok g -> find_perfect_matching g = Err e -> e = OutOfFuel.
+Proof. exact parsed_matching_raises_nothing. Qed.
+
 (* everything assembled, for EVERY string, every table with a '?' entry and both flags: the model of encoder() returns, or
-   raises EncoderError, or the reader's int() refuses an over-long digit field (ValueError: known finding), or the error
-   comes out of find_perfect_matching on the pruned graph - the one routine whose own crash freedom is not proved *)
+   raises EncoderError, or the reader's int() refuses an over-long digit field (ValueError: known finding), or ends in
+   the model-only outcome OutOfFuel inside find_perfect_matching - i.e. NO OTHER EXCEPTION TYPE ESCAPES; what is not
+   proved is that the matching loops terminate within the fuel the model gives them *)
 Theorem C09_encoder_outcomes_partial : forall T smiles strict attribute e,
   (exists v, assoc (lit "?") T = Some v) ->
   encoder T smiles strict attribute = Err e ->
   e = EncoderError \/ e = ValueError \/
-  exists m0 g, smiles_to_mol smiles attribute = Ok m0 /\ pruned_ds m0 = Ok g /\ find_perfect_matching g = Err e.
+  (e = OutOfFuel /\ exists m0 g, smiles_to_mol smiles attribute = Ok m0 /\ pruned_ds m0 = Ok g /\ find_perfect_matching g = Err OutOfFuel).
 Proof.
   intros T smiles strict attribute e Hq E.
   pose proof (smiles_to_mol_total smiles attribute) as Hp.
@@ -140,11 +150,11 @@ Proof.
     + left. exact (encoder_after_kekulize_outcomes T smiles strict attribute m0 m1 e Hq Ep Ek E).
     + left. unfold encoder in E. rewrite (kekulize_failure_becomes_encoder_error _ smiles strict attribute m0 Ep Ek) in E. congruence.
     + right. right. unfold encoder, encoder_c in E. rewrite Ep in E. unfold encode_mol in E. rewrite Ek in E. cbn in E. inversion E; subst ek.
-      destruct (kekulize_fails_only_inside_matching m0 e (parsed_kpre _ _ _ Ep) Ek) as (g & Eg & Em). exists m0, g. auto.
+      destruct (kekulize_fails_only_inside_matching m0 e (parsed_kpre _ _ _ Ep) Ek) as (g & Eg & Em).
+      pose proof (parsed_matching_raises_nothing smiles attribute m0 g e Ep Eg Em) as Hf. unfold EncMatchSafe.fuel_only in Hf. subst e.
+      split; [reflexivity|]. exists m0, g. auto.
   - unfold encoder, encoder_c in E. rewrite Ep in E. destruct Hp as [-> | ->]; inversion E; auto.
 Qed.
-
-
 
 Print Assumptions C09_parse_error_is_encoder_error_partial.
 Print Assumptions C09_parser_total_partial.
@@ -158,6 +168,7 @@ Print Assumptions C09_emission_no_attribute_error_partial.
 Print Assumptions C09_last_stage_outcomes_partial.
 Print Assumptions C09_matching_raises_only_in_greedy_partial.
 Print Assumptions C09_encoder_outcomes_partial.
+Print Assumptions C09_matching_raises_nothing_partial.
 Print Assumptions C09_emission_no_assertion_error_partial.
 Print Assumptions C09_emission_no_value_error_partial.
 Print Assumptions C09_kekulize_leaves_integral_orders.
